@@ -273,7 +273,13 @@ func checkResults(t *tgt, q qopts, rs []s2.EdgeQueryResult, edges, interiors []c
 	}
 	approx := usesErr(t, q)
 	exactRank := q.maxErr == 0 || (q.k != 1 && !approx)
+	seen := map[[2]int32]bool{}
 	for i, r := range rs {
+		id := [2]int32{r.ShapeID(), r.EdgeID()}
+		if seen[id] {
+			return fmt.Sprintf("edge (%d,%d) is reported twice", id[0], id[1])
+		}
+		seen[id] = true
 		rc := cand{r.Distance(), r.ShapeID(), r.EdgeID()}
 		if i > 0 {
 			pc := cand{rs[i-1].Distance(), rs[i-1].ShapeID(), rs[i-1].EdgeID()}
